@@ -32,6 +32,12 @@ Definition c13_guard (tc : tl_consts) (lp : swap_data) (e : effect) : bool :=
 Definition liquid7 (d : swap_data) : bool :=
   String.eqb (get_chain d) lbtc_chain && (get_version d =? 7).
 
+(* the durable record is past the creating states: the request / agreement with the pubkey has been handed to the
+   messenger (a record written by an older release may be in such a state WITHOUT an anchor) *)
+Definition revealed (lp : swap_data) : bool :=
+  negb (String.eqb (d_fsm_state lp) "" || String.eqb (d_fsm_state lp) "State_SwapOutSender_CreateSwap" ||
+        String.eqb (d_fsm_state lp) "State_SwapInReceiver_CreateSwap").
+
 Definition c13_spec_guard (lp : swap_data) (e : effect) : bool :=
   match e with
   | ESend _ m => if pubkey_msg m && liquid7 lp then d_start_set lp else true
@@ -39,6 +45,14 @@ Definition c13_spec_guard (lp : swap_data) (e : effect) : bool :=
       if liquid7 lp && d_start_set lp
       then d_start_set d && (d_start_height d =? d_start_height lp) && liquid7 d else true
   | EPayClaim _ _ _ _ _ => if String.eqb (get_chain lp) lbtc_chain then d_start_set lp else true
+  | _ => true
+  end.
+
+(* monitor only (not part of the proved guard): no anchor is ever made up for a record that is past the creating
+   states without one - "a swap without a stored anchor never pays" must not be defeated by adding one later *)
+Definition c13_late_anchor_guard (lp : swap_data) (e : effect) : bool :=
+  match e with
+  | EPersist _ d _ => if liquid7 lp && revealed lp && negb (d_start_set lp) then negb (d_start_set d) else true
   | _ => true
   end.
 
@@ -60,6 +74,7 @@ Fixpoint c13_steps (lp : swap_data) (l : list obs_step) : bool :=
       let lp0 := if rec then m_data (os_pre s) else lp in
       (if rec then anchor_kept lp (m_data (os_pre s)) else true) &&
       trace_okb c13_spec_guard lp0 (os_effects s) &&
+      trace_okb c13_late_anchor_guard lp0 (os_effects s) &&
       c13_steps (lp_end lp0 (os_effects s)) r
   end.
 
